@@ -156,7 +156,7 @@ func c01BoundedByWhole(v ssa.Value, bufDesc string, e *fw.SymEnv, env *fw.PolyEn
 }
 
 func c01Bytes(r *fw.Run, p *fw.Program) {
-	ru := r.Rule("C01.bytes", "byte views over the carry buffer (IOReader.Read, IOBitWriter.WriteBits/Flush): every extraction from the buffer either takes a multiple of 8 bits that does not exceed the whole-byte part Len()-Len()%8 and hands on exactly count/8 bytes, or takes all Len() remaining bits (fewer than 8, more than 0) into one byte and hands on exactly 1 byte", 9)
+	ru := r.Rule("C01.bytes", "byte views over the carry buffer (IOReader.Read, IOBitWriter.WriteBits/Flush): every extraction from the buffer either takes a multiple of 8 bits that does not exceed the whole-byte part Len()-Len()%8 and hands on exactly count/8 bytes, or takes all Len() remaining bits (fewer than 8, more than 0) into one byte and hands on exactly 1 byte; bits keep their order: whatever is handed on was taken out of the buffer, WriteBits puts its input into the buffer, and a write around the buffer happens only when no bits are pending", 15)
 	for _, name := range []string{"(*pkg/bitio.IOReader).Read", "(*pkg/bitio.IOBitWriter).WriteBits", "(*pkg/bitio.IOBitWriter).Flush"} {
 		fn := getFn(ru, p, name)
 		if fn == nil {
@@ -280,6 +280,105 @@ func c01Bytes(r *fw.Run, p *fw.Program) {
 				}
 				ru.Check(ok, key+":whole:bytes", p.Rel(c.Pos()), "writes count/8 bytes", "the bytes written must be the first (bits taken)/8 bytes of the buffer the bits were taken into")
 			}
+		}
+	}
+	c01BytesOrder(ru, p)
+}
+
+// c01BytesOrder: bits keep their order because they pass through the carry buffer. Every byte a byte view hands on
+// was taken out of the buffer, and everything IOBitWriter is given goes into the buffer first; a path around the
+// buffer (a "fast path" straight to the io.Writer) is only in order when no bits are pending (Len() == 0).
+func c01BytesOrder(ru *fw.Rule, p *fw.Program) {
+	noPending := func(b *ssa.BasicBlock, e *fw.SymEnv, bufDesc string) bool {
+		return c01xHasGuard(b, func(cond ssa.Value, truth bool) bool {
+			bo, ok := cond.(*ssa.BinOp)
+			if !ok || !c01IsLenOfBuf(bo.X, bufDesc, e) {
+				return false
+			}
+			switch {
+			case bo.Op == token.EQL && c01xIsConst(bo.Y, 0), bo.Op == token.LEQ && c01xIsConst(bo.Y, 0), bo.Op == token.LSS && c01xIsConst(bo.Y, 1):
+				return truth
+			case bo.Op == token.NEQ && c01xIsConst(bo.Y, 0), bo.Op == token.GTR && c01xIsConst(bo.Y, 0), bo.Op == token.GEQ && c01xIsConst(bo.Y, 1):
+				return !truth
+			}
+			return false
+		})
+	}
+	for _, name := range []string{"(*pkg/bitio.IOBitWriter).WriteBits", "(*pkg/bitio.IOBitWriter).Flush"} {
+		fn := p.Fn(name)
+		if fn == nil || fn.Blocks == nil {
+			continue // reported by the caller
+		}
+		short := strings.Replace(strings.Replace(name, "(*pkg/bitio.", "", 1), ")", "", 1)
+		e := fw.NewSymEnv(fn)
+		takes := c01xStaticCalls(fn, "(*pkg/bitio.Buffer).ReadBits")
+		var direct []*ssa.Call
+		for i, w := range c01xInvokes(fn, "Write") {
+			key := fmt.Sprintf("%s:write%d:from-carry", short, i+1)
+			if e.Of(w.Common().Value) != "P0->w" {
+				continue
+			}
+			fromTake := false
+			if sl, ok := w.Common().Args[0].(*ssa.Slice); ok {
+				for _, t := range takes {
+					if tsl, ok := t.Common().Args[1].(*ssa.Slice); ok && tsl.X == sl.X && e.Of(t.Common().Args[0]) == "&P0->b" && precedesOnAllPaths(t, w) {
+						if _, isAlloc := sl.X.(*ssa.Alloc); isAlloc {
+							fromTake = true
+						}
+					}
+				}
+			}
+			if fromTake {
+				ru.Ok(key, p.Rel(w.Pos()), "writes bytes taken out of the carry buffer")
+				continue
+			}
+			ok := noPending(w.Block(), e, "&P0->b")
+			if ok {
+				direct = append(direct, w)
+			}
+			ru.Check(ok, key, p.Rel(w.Pos()), "direct write only with an empty carry buffer", "bytes are written to the io.Writer without passing through the carry buffer although bits may be pending in it: they overtake the pending bits and the output is reordered")
+		}
+		if !strings.HasSuffix(name, "WriteBits") {
+			continue
+		}
+		var puts []*ssa.Call
+		for _, c := range c01xStaticCalls(fn, "(*pkg/bitio.Buffer).WriteBits") {
+			if e.CallDesc(c) == "(*pkg/bitio.Buffer).WriteBits(&P0->b,P1,P2)" {
+				puts = append(puts, c)
+			}
+		}
+		n := 0
+		for _, ret := range c01xSuccessReturns(fn) {
+			n++
+			ok := false
+			for _, c := range puts {
+				if precedesOnAllPaths(c, ret) {
+					ok = true
+				}
+			}
+			for _, w := range direct {
+				if precedesOnAllPaths(w, ret) {
+					ok = true
+				}
+			}
+			ru.Check(ok, fmt.Sprintf("%s:return%d:buffered", short, n), p.Rel(ret.Pos()), "the given bits entered the carry buffer", "WriteBits reports success on a path where the nBits bits of p were neither put into the carry buffer nor written with an empty carry")
+		}
+	}
+	if fn := p.Fn("(*pkg/bitio.IOReader).Read"); fn != nil && fn.Blocks != nil {
+		takes := c01xStaticCalls(fn, "(*pkg/bitio.Buffer).ReadBits")
+		n := 0
+		for _, ret := range returnsOf(fn) {
+			if len(ret.Results) != 2 || c01xIsConst(ret.Results[0], 0) {
+				continue
+			}
+			n++
+			ok := false
+			for _, t := range takes {
+				if precedesOnAllPaths(t, ret) {
+					ok = true
+				}
+			}
+			ru.Check(ok, fmt.Sprintf("IOReader.Read:return%d:from-carry", n), p.Rel(ret.Pos()), "bytes handed on were taken out of the carry buffer", "Read reports bytes on a path that does not take them out of the carry buffer (bits already buffered would be overtaken)")
 		}
 	}
 }
